@@ -270,4 +270,11 @@ def c11_e(ctx: Ctx):
     return out
 
 
-RULES = [c11_a, c11_b, c11_c, c11_d, c11_e]
+@rule("C11-f")
+def c11_f(ctx: Ctx):
+    """signac move is Job.move and nothing else (no multi-step fall-back that a fault leaves half done)."""
+    from . import cli
+    return cli.move_delegates(ctx, "C11-f")
+
+
+RULES = [c11_a, c11_b, c11_c, c11_d, c11_e, c11_f]
